@@ -621,4 +621,122 @@ theorem unmount_detached (s : KState) (pre post : List NodeId) (hs : Wf s) (hm :
   · rw [hnx, hmarker]
     exact hm.fresh s.marker (by rw [hk]; simp)
 
+/-! ### `insert_before_this` -/
+
+/-- **`insert_before_this(child)` on a mounted list**: the child becomes the last of the leading siblings —
+directly in front of the first node of the first item, or of the marker if the list is empty -/
+theorem insertBeforeThis_mounted (s : KState) (pre post : List NodeId) (child : NodeId) (hs : Wf s)
+    (hm : Mounted pre post s) (hc : child ∉ s.w.kids) (hcn : child < s.w.next) :
+    (s.insertBeforeThis child).2 = true ∧ Wf (s.insertBeforeThis child).1 ∧
+    Mounted (pre ++ [child]) post (s.insertBeforeThis child).1 := by
+  have hk : s.w.kids = pre ++ blocks (somes s.w.storage) ++ s.marker :: post := hm.ordered
+  have hkn : (pre ++ blocks (somes s.w.storage) ++ s.marker :: post).Nodup := hk ▸ hm.nodup
+  have h1 := List.nodup_append.mp hkn
+  have h2 := List.nodup_append.mp h1.1
+  -- the reference node `r` is the first node after `pre`
+  have key : ∀ (r : NodeId) (rest : List NodeId), s.w.kids = pre ++ r :: rest →
+      insertBefore s.w.kids child (some r) = (pre ++ [child]) ++ r :: rest := by
+    intro r rest hkr
+    have hr : r ∈ s.w.kids := by rw [hkr]; simp
+    rw [insertBefore_of_mem hr, List.erase_of_not_mem hc, hkr]
+    have hrp : r ∉ pre := by
+      intro h
+      have hn := hkr ▸ hm.nodup
+      exact (List.nodup_append.mp hn).2.2 r h r (by simp) rfl
+    rw [insB_append_of_not_mem rest hrp]
+    simp
+  have good : ∀ (r : NodeId) (rest : List NodeId), s.w.kids = pre ++ r :: rest →
+      Wf ({ s with w := { s.w with kids := insertBefore s.w.kids child (some r) } } : KState) ∧
+      Mounted (pre ++ [child]) post
+        ({ s with w := { s.w with kids := insertBefore s.w.kids child (some r) } } : KState) := by
+    intro r rest hkr
+    refine ⟨⟨hs.all_some, hs.keys, hs.nodup⟩, ⟨?_, ?_, hm.nonempty, ?_, hm.bs_pos, hm.has_parent⟩⟩
+    · show insertBefore s.w.kids child (some r) = _
+      rw [key r rest hkr]
+      have h3 : r :: rest = blocks (somes s.w.storage) ++ s.marker :: post := by
+        have : pre ++ r :: rest = pre ++ (blocks (somes s.w.storage) ++ s.marker :: post) := by
+          rw [← hkr, hk, List.append_assoc]
+        exact List.append_cancel_left this
+      show pre ++ [child] ++ r :: rest = pre ++ [child] ++ blocksOf s.w.storage ++ s.marker :: post
+      rw [h3, blocksOf_eq]
+      simp [List.append_assoc]
+    · show (insertBefore s.w.kids child (some r)).Nodup
+      exact nodup_insertBefore _ _ hm.nodup
+    · intro n hn
+      have hn' : n ∈ insertBefore s.w.kids child (some r) := hn
+      rcases mem_insertBefore hn' with h | h
+      · rw [h]; exact hcn
+      · exact hm.fresh n h
+  cases hst : s.w.storage.head? with
+  | none =>
+    have hnil : s.w.storage = [] := List.head?_eq_none_iff.mp hst
+    have hkr : s.w.kids = pre ++ s.marker :: post := by rw [hk, hnil]; simp [somes]
+    have hmk : s.marker ∈ s.w.kids := by rw [hkr]; simp
+    have he : s.insertBeforeThis child
+        = ({ s with w := { s.w with kids := insertBefore s.w.kids child (some s.marker) } }, true) := by
+      simp [KState.insertBeforeThis, hst, hmk]
+    rw [he]
+    exact ⟨rfl, good s.marker post hkr⟩
+  | some o =>
+    cases o with
+    | none =>
+      -- a hole at the front cannot occur in a `Wf` state
+      exfalso
+      have := hs.all_some
+      cases hsto : s.w.storage with
+      | nil => rw [hsto] at hst; simp at hst
+      | cons a l =>
+        rw [hsto] at hst this
+        simp only [List.head?_cons, Option.some.injEq] at hst
+        subst hst
+        rw [somes_cons_none] at this
+        have := congrArg List.head? this
+        cases hl : somes l <;> simp [hl] at this
+    | some it =>
+      obtain ⟨L, hL⟩ : ∃ L, somes s.w.storage = it :: L := by
+        cases hsto : s.w.storage with
+        | nil => rw [hsto] at hst; simp at hst
+        | cons a l =>
+          rw [hsto] at hst
+          simp only [List.head?_cons, Option.some.injEq] at hst
+          subst hst
+          exact ⟨somes l, rfl⟩
+      have hit : it ∈ somes s.w.storage := by rw [hL]; simp
+      obtain ⟨h, tl, hnodes⟩ : ∃ h tl, it.nodes = h :: tl := by
+        cases hn : it.nodes with
+        | nil => exact absurd hn (hm.nonempty it hit)
+        | cons h tl => exact ⟨h, tl, rfl⟩
+      have hkr : s.w.kids = pre ++ h :: (tl ++ blocks L ++ s.marker :: post) := by
+        rw [hk, hL, blocks_cons, hnodes]; simp [List.append_assoc]
+      have hmk : h ∈ s.w.kids := by rw [hkr]; simp
+      have he : s.insertBeforeThis child
+          = ({ s with w := { s.w with kids := insertBefore s.w.kids child (some h) } }, true) := by
+        simp [KState.insertBeforeThis, hst, hnodes, hmk]
+      rw [he]
+      exact ⟨rfl, good h _ hkr⟩
+
+/-- a list that is not in the DOM answers `false` and inserts nothing -/
+theorem insertBeforeThis_detached (s : KState) (child : NodeId) (hd : Detached s) :
+    s.insertBeforeThis child = (s, false) := by
+  unfold KState.insertBeforeThis
+  cases hst : s.w.storage.head? with
+  | none => simp [hd.marker_out]
+  | some o =>
+    cases o with
+    | none => rfl
+    | some it =>
+      cases hn : it.nodes.head? with
+      | none => simp [hn]
+      | some h =>
+        have hit : it ∈ somes s.w.storage := by
+          cases hsto : s.w.storage with
+          | nil => rw [hsto] at hst; simp at hst
+          | cons a l =>
+            rw [hsto] at hst
+            simp only [List.head?_cons, Option.some.injEq] at hst
+            subst hst
+            simp [somes]
+        have : h ∉ s.w.kids := hd.disjoint h (mem_blocks.mpr ⟨it, hit, List.mem_of_head? hn⟩)
+        simp [hn, this]
+
 end Leptos.Keyed
